@@ -121,7 +121,7 @@ structure ETx where
   expanded group `Header` is the 32-byte group hash, which decodes by accident for about 1 in 500
   hashes — then with no transactions. -/
   hdr : Option (List Int)
-  deriving Repr
+  deriving Repr, DecidableEq
 
 /-- `Transaction.IsExpire`: group path when `GetTxGroup` yields a group. -/
 def ETx.isExpire (txHeightOn : Bool) (height blocktime : Int) (t : ETx) : Bool :=
@@ -138,11 +138,11 @@ def ETx.expired (txHeightOn : Bool) (height blocktime : Int) (t : ETx) : Bool :=
 def markExpired (exp : ETx → Bool) : List ETx → Option (List (Option ETx))
   | [] => some []
   | t :: rest =>
-    if h0 : t.gc = 0 then
+    if _h0 : t.gc = 0 then
       (markExpired exp rest).map (fun r => (if exp t then none else some t) :: r)
     else if t.gc > (rest.length + 1 : Nat) then
       (markExpired exp rest).map (fun r => some t :: r)        -- `continue`: kept unchecked
-    else if hneg : t.gc < 0 then none                            -- txs[i : i+gc] panics
+    else if _hneg : t.gc < 0 then none                          -- txs[i : i+gc] panics
     else
       let n := t.gc.toNat
       let grp := (t :: rest).take n
